@@ -1,4 +1,6 @@
 """C02: rendered response is well-formed and type-safe whatever subgraphs return -- see DESIGN.md."""
+import glob
+import json
 import os
 
 import vlib
@@ -7,12 +9,38 @@ RULE = ("random response-plan trees (depth <= 5; objects concrete/abstract with 
         "ParentOnTypeNames conditions, nested lists, all scalar kinds, enums with inaccessible values, static nodes, "
         "unresolvable objects) and 1-4 payloads per tree derived from the tree (well-typed by construction) and then "
         "mutated 0-5 times (null, deleted key, wrong scalar kind, wrong/missing/inaccessible __typename, invalid or "
-        "inaccessible enum value, array<->object, null list item, __skipErrors, duplicate key). Distinct by hash of the "
-        "case line; non-trivial when at least one mutation was applied and the completion semantics reports an error.")
+        "inaccessible enum value, array<->object, null list item, __skipErrors, duplicate key). A second stream gives "
+        "every node a data path of length 0..3 (field path mappings such as [data,user]; empty path = the enclosing "
+        "object itself, i.e. flattened objects; list items read below a key; siblings sharing a proper prefix; a segment "
+        "equal to a sibling's key) with the payload nested accordingly, with and without authorization rules. Distinct by "
+        "hash of the case line; non-trivial when at least one mutation was applied and the completion semantics reports an error.")
+
+# Findings on plans outside plan_wf (the driver tags the violated clause); each has a corpus file
+# corpus/C02/known-<key>.case and, for the first, a generated stream.  They run only once the finding is recorded.
+KEY_OVERLAP = "overlapping-sibling-paths"
+KEY_DENIED_EMPTY = "denied-empty-path-panic"
 
 
 def classify(case, detail):
+    if "[outside plan_wf: sibling data paths overlap]" in detail:
+        return KEY_OVERLAP
+    if "[outside plan_wf: authorization rule on a field without a data key]" in detail and detail.startswith("no_panic"):
+        return KEY_DENIED_EMPTY
     return None
+
+
+def corpus_files(chk):
+    """corpus/C02/*.case: minimised regression cases, replayed first. known-<key>.case only when <key> is recorded."""
+    out = []
+    for f in sorted(glob.glob(os.path.join(vlib.ROOT, "corpus", "C02", "*.case"))):
+        b = os.path.basename(f)
+        if b.startswith("known-"):
+            key = b[len("known-"):-len(".case")]
+            if chk.match_known(key) is None:
+                chk.log("corpus %s not run: finding %s is not recorded in KNOWN_FINDINGS.txt" % (b, key))
+                continue
+        out.append(f)
+    return out
 
 
 def run(chk, prop="C02", auth=False):
@@ -22,6 +50,8 @@ def run(chk, prop="C02", auth=False):
         "Coq 8.16.1 kernel; extraction ExtrOcamlBasic only; ocaml/common/prelude.ml + ocaml/c02/driver.ml",
         "hand-written model of resolvable.go (default ResolvableOptions, non-defer mode) tied by byte-exact correspondence of the data member and (kind,path) of every error",
         "astjson (Get/SetNull/SetArrayItem/MarshalTo/Parse) is modelled on JSON trees, not verified; error message wording is not modelled",
+        "node paths: any key sequence (get_path / set_path navigate exactly like Value.Get / astjson.SetValue on objects); a path segment that is a decimal number would index an array in astjson -- never generated, not modelled; an empty path is built as a nil slice (what the planner emits for list items), a non-nil empty slice is not distinguished",
+        "plan_wf (hypothesis of the refinement theorem): within one object value the data paths read by its fields, looking through flattened (empty-path) objects, are pairwise prefix-incomparable; authorization rules sit on fields with a non-empty path not starting with __typename; objects/lists are not read through the key __typename. Plans violating exactly one of the two path clauses are still held to no-panic / valid JSON / envelope / type-safety (findings overlapping-sibling-paths, denied-empty-path-panic)",
         "Apollo-compatibility options, custom field renderers, UnescapeResponseJson, type-name renaming, cost control and extensions are outside the model",
         "go harness: harness/plan (generator, plan builder), harness/cmd/c02; Go's encoding/json.Valid is the validity oracle for the output text",
     ]
@@ -38,7 +68,11 @@ def run(chk, prop="C02", auth=False):
     state = {}
     samples = []
     authf = " -auth 1" if auth else ""
-    # corpus = fixed seeds that reproduced the three repaired defects (nested list panic, [,] output, doubled path)
+    for f in corpus_files(chk):
+        b = vlib.run_batch(chk, "%s replay -in %s -out {out}" % (exe, f), model, "corpus-" + os.path.basename(f)[:-5])
+        if b:
+            vlib.digest_batch(chk, b[0], b[1], classify, state)
+    # fixed seeds that reproduced the three repaired defects (nested list panic, [,] output, doubled path)
     for tag, seed, cnt in (("corpus", 1, 3000),):
         b = vlib.run_batch(chk, "%s gen -seed %d -n %d%s -out {out}" % (exe, seed, cnt, authf), model, tag)
         if b:
@@ -58,10 +92,39 @@ def run(chk, prop="C02", auth=False):
             "data_null": sum(1 for c in b[0] if '(data "null")' in c),
             "avg_case_bytes": sum(len(c) for c in b[0]) // max(1, len(b[0])),
         }
+    # data paths of length 0..3 on every node: without and with authorization rules (the model and the theorems
+    # are parametric in the decision function), then -- recorded finding -- overlapping sibling paths
+    npaths = 3000 if chk.tier == "quick" else 150000
+    streams = [("paths", "", 104729 * chk.seed + 7, npaths if not auth else npaths // 2),
+               ("paths-auth", " -auth 1", 104729 * chk.seed + 11, npaths // 2)]
+    if auth:
+        streams = streams[1:]
+    if chk.match_known(KEY_OVERLAP) is not None:
+        streams.append(("paths-overlap", " -overlap 1" + authf, 104729 * chk.seed + 13, npaths // 2))
+    pstats = {}
+    for tag, flags, seed, cnt in streams:
+        stf = os.path.join(chk.work, tag + ".stats.json")
+        b = vlib.run_batch(chk, "%s gen -seed %d -n %d -paths 1%s -stats %s -out {out}" % (exe, seed, cnt, flags, stf), model, tag)
+        if b:
+            vlib.digest_batch(chk, b[0], b[1], classify, state)
+            if tag == "paths":
+                samples += [c[:1500] for c in b[0][:2]]
+            try:
+                st = json.load(open(stf))
+                st["cases"] = len(b[0])
+                st["with_errors"] = sum(1 for c in b[0] if "(errs (e" in c)
+                pstats[tag] = st
+            except (OSError, ValueError):
+                pass
+    if pstats:
+        chk.coverage.setdefault("distribution", {})["path_streams"] = pstats
 
     def more(st):
         for k in range(1, 6):
             bb = vlib.run_batch(chk, "%s gen -seed %d -n %d%s -out {out}" % (exe, chk.seed * 1000 + k, n * 3, authf), model, "more%d" % k)
+            if bb:
+                vlib.digest_batch(chk, bb[0], bb[1], classify, st)
+            bb = vlib.run_batch(chk, "%s gen -seed %d -n %d -paths 1%s -out {out}" % (exe, chk.seed * 1000 + 500 + k, n * 3, authf), model, "morep%d" % k)
             if bb:
                 vlib.digest_batch(chk, bb[0], bb[1], classify, st)
             if any(kk is None for (kk, _, _) in st.get("specfail", [])):
@@ -73,7 +136,6 @@ def run(chk, prop="C02", auth=False):
 
 def replay(chk, path, prop="C02"):
     """Re-execute exactly the case stored in a replay file on the current implementation and model."""
-    import json
     r = json.load(open(path))
     case = r.get("case")
     lines = []
